@@ -58,6 +58,11 @@ def starts(tier):
         # the same colour with stale values in the registers the current mode does not use
         out.append(('rgb', 'hue 200 saturation 45 brightness 35 units rgb red %s green %s blue %s kelvin 2700 duration 1.5 time 1.5'
                     % (fmt(r), fmt(g), fmt(b))))
+    # kelvin is never altered, whatever its value: fractional and out-of-catalogue kelvins in every mode
+    for k in (2500.5, 1, 0.25, 9000.75):
+        out.append(('logical', 'hue 120 saturation 80 brightness 60 kelvin %s duration 1.5 time 1.5' % fmt(k)))
+        out.append(('rgb', 'units rgb red 10 green 60 blue 30 kelvin %s duration 1.5 time 1.5' % fmt(k)))
+        out.append(('raw', 'units raw hue 21845 saturation 52428 brightness 39321 kelvin %s duration 1500 time 1500' % fmt(k)))
     for h in (0, 7.5, 120, 352.5):
         for sat, b in ((0, 50), (100, 100), (37.5, 62.5)):
             out.append(('logical', 'red 90 green 10 blue 60 hue %s saturation %s brightness %s kelvin 2700 duration 1.5 time 1.5'
